@@ -489,8 +489,8 @@ Proof.
       assert (Hfb : fb = 0 /\ ca = 0 /\ sh = 0) by (unfold fb, ca, sh; rewrite Eb0, Ea0; repeat split; reflexivity).
       destruct Hfb as (Hfb & Hca & Hsh0).
       assert (Hbits1 : bits1 = 0).
-      { destruct Hcase as [[-> ->]|[_ ->]]; [|reflexivity].
-        assert (F = 8 * offset) by lia. subst F. rewrite N.sub_diag in Hb. change (2 ^ 0) with 1 in Hb. lia. }
+      { destruct Hcase as [[Eo Eb]|[_ Eb]]; [|exact Eb]. rewrite Eb.
+        assert (EF : F = 8 * offset) by lia. rewrite EF, N.sub_diag in Hb. change (2 ^ 0) with 1 in Hb. lia. }
       subst bits1.
       destruct (dataitem_spec en cur Hwc) as (dits & Edi & Hdl & Hdn).
       { unfold isbf. fold b a. rewrite Eb0, Ea0. reflexivity. }
@@ -511,4 +511,134 @@ Proof.
         replace (bend cur - bstart cur) with (8 * (i_end cur - i_start cur)) by lia.
         replace (bstart cur) with (8 * start) by (unfold start; lia).
         fold V in Hn2. rewrite N.mul_0_r, N.add_0_r in Hn2. rewrite Hn2. lia.
+Qed.
+
+Definition within (size : N) (l : list init) : Prop := Forall (fun i => i_end i <= size) l.
+
+(* HEADLINE: for a sorted list of non-overlapping well-formed entries inside an object of `size` bytes, emitdata
+   terminates without hitting an assertion, emits exactly `size` bytes, and these bytes are the specified image. *)
+Theorem emitdata_image en size l :
+  size * 8 < M64 -> Forall wf_entry l -> sorted_disjoint l -> within size l ->
+  exists items, emitdata size l = DOk items /\
+    N.of_nat (length (items_bytes (symaddr en) items)) = size /\
+    bytes_num (items_bytes (symaddr en) items) = image en size (map leaf_of l).
+Proof.
+  intros Hs Hwf Hsd Hin. unfold emitdata.
+  assert (HF0 : Forall (fun i => 0 <= bstart i) l) by (rewrite Forall_forall; intros i _; lia).
+  assert (Hb0 : 0 < 2 ^ (0 - 8 * 0)) by apply pow2_pos.
+  destruct (emit_loop_ok en size Hs l (S (length l)) 0 0 [] 0 (Nat.lt_succ_diag_r _) Hwf Hsd Hin HF0 eq_refl
+              ltac:(lia) ltac:(lia) Hb0 ltac:(lia)) as (its & E & Hl & Hn).
+  exists its. split; [exact E|]. split; [exact Hl|]. unfold image, overlay.
+  change (inum en [] + 2 ^ (8 * 0) * 0) with 0 in Hn. unfold inum in Hn. rewrite Hn.
+  symmetry. apply N.mod_small. rewrite <- Hn. rewrite <- Hl. apply bytes_num_lt.
+Qed.
+
+(* the part of the statement C03 (well-formed IL) uses: the item sizes add up to the object's size *)
+Corollary emitdata_size size l :
+  size * 8 < M64 -> Forall wf_entry l -> sorted_disjoint l -> within size l ->
+  exists items, emitdata size l = DOk items /\ N.of_nat (length (items_bytes (fun _ => 0) items)) = size.
+Proof.
+  intros. destruct (emitdata_image (mkenv (fun _ => 0) (fun _ => 0)) size l) as (its & E & Hl & _); try assumption.
+  exists its. split; assumption.
+Qed.
+
+(* boolean versions of the hypotheses, for the examples *)
+Definition wf_entryb (i : init) : bool :=
+  (i_start i <? i_end i) && (i_end i * 8 <? M64) &&
+  match i_expr i with
+  | EConst isflt sz u => (sz =? i_end i - i_start i) && (bf_before (i_bits i) + bf_after (i_bits i) <? 8 * sz) &&
+                         (negb (isbf i) || (negb isflt && (sz <=? 8)))
+  | EAddr _ _ => (i_end i - i_start i =? 8) && negb (isbf i)
+  | EString w data => ((w =? 1) || (w =? 2) || (w =? 4)) && ((i_end i - i_start i) mod w =? 0) && negb (isbf i)
+  | EOpaque _ _ _ _ => false
+  end.
+
+Lemma wf_entryb_ok i : wf_entryb i = true -> wf_entry i.
+Proof.
+  unfold wf_entryb, wf_entry. intros H. apply andb_true_iff in H. destruct H as [H H3].
+  apply andb_true_iff in H. destruct H as [H1 H2]. apply N.ltb_lt in H1, H2.
+  split; [exact H1|]. split; [exact H2|]. cbv zeta.
+  destruct (i_expr i) as [isflt sz u|w data|sym off|].
+  - apply andb_true_iff in H3. destruct H3 as [H3 H5]. apply andb_true_iff in H3. destruct H3 as [H3 H4].
+    apply N.eqb_eq in H3. apply N.ltb_lt in H4. split; [exact H3|]. split; [exact H4|].
+    apply orb_true_iff in H5. destruct H5 as [H5|H5].
+    + left. apply negb_true_iff. exact H5.
+    + right. apply andb_true_iff in H5. destruct H5 as [H5 H6]. apply negb_true_iff in H5. apply N.leb_le in H6. split; assumption.
+  - apply andb_true_iff in H3. destruct H3 as [H3 H5]. apply andb_true_iff in H3. destruct H3 as [H3 H4].
+    apply N.eqb_eq in H4. apply negb_true_iff in H5. split; [|split; assumption].
+    apply orb_true_iff in H3. destruct H3 as [H3|H3]; [apply orb_true_iff in H3; destruct H3 as [H3|H3]|]; apply N.eqb_eq in H3; auto.
+  - apply andb_true_iff in H3. destruct H3 as [H3 H4]. apply N.eqb_eq in H3. apply negb_true_iff in H4. split; assumption.
+  - discriminate.
+Qed.
+
+Fixpoint sortedb (l : list init) : bool :=
+  match l with
+  | [] => true
+  | a :: r => forallb (fun b => bend a <=? bstart b) r && sortedb r
+  end.
+
+Lemma sortedb_ok l : sortedb l = true -> sorted_disjoint l.
+Proof.
+  induction l as [|a r IH]; intros H; [constructor|]. cbn [sortedb] in H. apply andb_true_iff in H. destruct H as [H1 H2].
+  constructor; [apply IH; exact H2|]. rewrite forallb_forall in H1. rewrite Forall_forall. intros x Hx.
+  apply N.leb_le. apply H1. exact Hx.
+Qed.
+
+Lemma withinb_ok size l : forallb (fun i => i_end i <=? size) l = true -> within size l.
+Proof.
+  intros H. rewrite forallb_forall in H. unfold within. rewrite Forall_forall. intros x Hx. apply N.leb_le. apply H. exact Hx.
+Qed.
+
+(* non-vacuity: bit-fields sharing bytes, a gap, a short string, an address, a trailing gap *)
+Definition ex_list : list init :=
+  [ mkinit 0 4 (mkbf 0 29) (EConst false 4 18446744073709551615);     (* int a:3 = -1 *)
+    mkinit 0 4 (mkbf 3 17) (EConst false 4 2730);                      (* int b:12 = 0xaaa *)
+    mkinit 2 3 (mkbf 0 0) (EConst false 1 300);                        (* char c = 300 *)
+    mkinit 8 16 (mkbf 0 0) (EAddr 3 12);                               (* int *p = &garr[3] *)
+    mkinit 16 21 (mkbf 0 0) (EString 1 [97; 98; 0]);                   (* char s[5] = "ab" *)
+    mkinit 24 32 (mkbf 20 4) (EConst false 8 18446744073709551614) ].  (* long d:40 = -2 *)
+
+Example emitdata_image_nonvacuous :
+  Forall wf_entry ex_list /\ sorted_disjoint ex_list /\ within 40 ex_list /\
+  emitdata 40 ex_list =
+    DOk [IInt 1 [87]; IInt 1 [85]; IInt 1 [300]; IZero 5; IRef 3 12; IStr [97; 98; 0]; IZero 2; IZero 5;
+         IInt 1 [224]; IInt 1 [255]; IInt 1 [255]; IInt 1 [255]; IInt 1 [255]; IInt 1 [15]; IZero 8].
+Proof.
+  split; [|split; [|split]].
+  - rewrite Forall_forall. intros i Hi. apply wf_entryb_ok. revert i Hi. rewrite <- Forall_forall. repeat constructor.
+  - apply sortedb_ok. vm_compute. reflexivity.
+  - apply withinb_ok. vm_compute. reflexivity.
+  - vm_compute. reflexivity.
+Qed.
+
+(* D18 (upstream issue 38): two members of a union initialised: `union U { int a; char b; } u = { .a = 1, .b = 2 };`
+   initadd keeps both entries (the first covers the second) and emitdata hits its own assertion: the statement
+   "emitdata succeeds on every list initadd can build from well-formed entries" is false. *)
+Definition d18_list : list init :=
+  fst (initadd (fst (initadd [] 0 (mkinit 0 4 nobits (EConst false 4 1)))) 0 (mkinit 0 1 nobits (EConst false 1 2))).
+
+Theorem union_two_members_refuted :
+  exists size l, Forall wf_entry l /\ Inv l /\ within size l /\ emitdata size l = DAssertCurString.
+Proof.
+  exists 4, d18_list.
+  assert (E : d18_list = [mkinit 0 4 nobits (EConst false 4 1); mkinit 0 1 nobits (EConst false 1 2)]) by (vm_compute; reflexivity).
+  rewrite E. split; [|split; [|split]].
+  - rewrite Forall_forall. intros i Hi. apply wf_entryb_ok. revert i Hi. rewrite <- Forall_forall. repeat constructor.
+  - unfold Inv. constructor; [repeat constructor|]. constructor; [|constructor]. right. split; vm_compute; intros HH; discriminate HH.
+  - apply withinb_ok. vm_compute. reflexivity.
+  - vm_compute. reflexivity.
+Qed.
+
+(* END TO END for static objects: if the entries were added in source order `src` and the resulting list has no
+   entry nested in another, the emitted definition is the image of the leaf writes in SOURCE order:
+   later initializers override earlier ones, everything else is zero. *)
+Theorem static_image en size l src :
+  built l src -> size * 8 < M64 -> Forall wf_entry l -> sorted_disjoint l -> within size l ->
+  exists items, emitdata size l = DOk items /\
+    N.of_nat (length (items_bytes (symaddr en) items)) = size /\
+    bytes_num (items_bytes (symaddr en) items) = image en size (map leaf_of src).
+Proof.
+  intros Hb Hs Hwf Hsd Hin. destruct (emitdata_image en size l Hs Hwf Hsd Hin) as (its & E & Hl & Hn).
+  exists its. split; [exact E|]. split; [exact Hl|]. rewrite Hn. unfold image.
+  change (overlay en (map leaf_of l)) with (denote en l). rewrite (built_denote en l src Hb). reflexivity.
 Qed.
